@@ -252,7 +252,10 @@ def main():
                     eqs, rest = [], []
                     for c in custom:
                         mm = re.fullmatch(rf"{a['name']} (?:\. load \( \) \? )?\. (\w+) == (\w+) \. key \( \)(?: @ .*)?", c)
+                        # the getter form of the same relation: `acct.load()?.field() == Some(&other.key())`
+                        mo = re.fullmatch(rf"{a['name']} \. load \( \) \? \. (\w+) \( \) == Some \( & (\w+) \. key \( \) \)(?: @ .*)?", c)
                         if mm and mm.group(2) in ftypes: eqs.append((mm.group(1), mm.group(2)))
+                        elif mo and mo.group(2) in ftypes: eqs.append((mo.group(1), mo.group(2)))
                         else: rest.append(c)
                     if rest: acc["constraint"] = True
                     is_tok = re.search(r"(Account|InterfaceAccount)<(?:token_interface::)?TokenAccount>", core)
@@ -402,7 +405,7 @@ def main():
                 args = b"".join(idl.zero(x["type"]) for x in ii["args"])
                 specs.append(dict(program=pname, program_id=idl.address, name=name, disc=ii["discriminator"], args=list(args), roles=roles,
                                   owner=owner_sig, guarded=attr.get((pname, name)) is not None, reachable=pinned,
-                                  foreign=(exp or {}).get("foreign", {}), accounts=accounts))
+                                  foreign=(exp or {}).get("foreign", {}), siblings=(exp or {}).get("siblings", {}), accounts=accounts))
             except Unsupported as e:
                 skipped.append(dict(program=pname, name=name, why=str(e), guarded=attr.get((pname, name)) is not None))
     text = json.dumps(dict(specs=specs, skipped=skipped), indent=0, sort_keys=True)
